@@ -198,6 +198,8 @@ package generator
 //@ ensures old(len(gen.Sections.Application)) != 0 ==> vs_same(gen.Sections.Application, old(gen.Sections.Application))
 //@ ensures @C08 old(len(gen.Sections.Models)) == 0 ==> vs_all(func(i int) bool { return 0 <= i && i < len(gen.Sections.Models) ==> strings.HasPrefix(gen.Sections.Models[i].FileName, vs_goNameFile) })
 //@ ensures @C08 old(len(gen.Sections.Operations)) == 0 ==> vs_all(func(i int) bool { return 0 <= i && i < len(gen.Sections.Operations) ==> strings.HasPrefix(gen.Sections.Operations[i].FileName, vs_goNameFile) })
+// whatever entry is rendered to the configure file (the one file of the server a user edits) is protected unless regeneration was asked for
+//@ ensures old(len(gen.Sections.Application)) == 0 ==> vs_all(func(i int) bool { return 0 <= i && i < len(gen.Sections.Application) && gen.Sections.Application[i].FileName == "configure_{{ (snakize (pascalize .Name)) }}.go" ==> gen.Sections.Application[i].SkipExists == !gen.RegenerateConfigureAPI })
 
 //@ func (*LanguageDefinition).ConfigureOpts
 //@ props C11
